@@ -123,6 +123,8 @@ def check(ctx):
                       "read conditionally; the reader feeds every constructor parameter", 12)
     ctx.rule("R14.7", "readers never replace a stored value by a default through truthiness (`stored or default`): 0, 0.0, False and "
                       "empty arrays are legitimate stored values", 6)
+    ctx.rule("R14.9", "Solution.to_hdf5: whenever the solution object is written into a file other than its own output file, that "
+                      "file was first replaced by a copy of the output file (on every path) or the data is written explicitly", 3)
     ctx.rule("R14.8", "equality of sequences of sub-objects compares lengths (no silent truncation by zip)", 2)
     ctx.rule("R14.2", "options: None values are dropped on save, so every Optional field must default to None "
                       "(or the reader must restore None)", 1)
@@ -213,6 +215,7 @@ def check(ctx):
 
     stored_value_defaulting(ctx)
     equality_truncation(ctx)
+    export_carries_data(ctx)
     options_none(ctx)
     mesh_restorable(ctx)
     getstate_slots(ctx)
@@ -457,3 +460,50 @@ def equality_truncation(ctx):
                            "accepted, and a reloaded device 'equals' one with an extra hole")
     if n < 5:
         raise AnalysisError(f"only {n} equality functions found")
+
+
+# ---------------------------------------------------------------------------
+# R14.9 an exported file carries this solution's data
+# ---------------------------------------------------------------------------
+
+def export_carries_data(ctx):
+    """`_save_to_hdf5_file(path)` writes the `solution` group only (unless save_tdgl_data=True): the frames and the dynamics
+    come from the output file, so a foreign target must have been overwritten by a copy of self.path on every path."""
+    from ..cfg import build_cfg
+    repo = ctx.repo
+    f = repo.func("tdgl.solution.solution", "Solution.to_hdf5")
+    fn = f.node
+    cfg = build_cfg(fn)
+    pm = parent_map(fn)
+    saves = [n for n in own_nodes(fn) if isinstance(n, ast.Call) and isinstance(n.func, ast.Attribute) and n.func.attr == "_save_to_hdf5_file"]
+    if len(saves) < 2:
+        raise AnalysisError("Solution.to_hdf5 no longer calls _save_to_hdf5_file at least twice")
+    from ..dataflow import stmt_of
+    for c in saves:
+        tgt = norm(c.args[0]) if c.args else "?"
+        explicit = any(k.arg == "save_tdgl_data" and isinstance(k.value, ast.Constant) and k.value.value is True for k in c.keywords)
+        st = stmt_of(c, pm)
+        if explicit or tgt == "self.path":
+            ctx.ob("R14.9", f"L{c.lineno}: {norm(c)[:80]} ({'data written explicitly' if explicit else 'in place'})", True,
+                   where=f.fq, construct=f"save into {tgt}")
+            continue
+        # nodes that make the target hold this solution's data: copy(self.path, tgt) or tgt = self.path
+        good = set()
+        for n in cfg.nodes:
+            if n.kind != "stmt" or n.ast is None:
+                continue
+            for x in ast.walk(n.ast):
+                if isinstance(x, ast.Call) and norm(x.func) in ("shutil.copy", "shutil.copyfile", "shutil.copy2", "copy", "copyfile") \
+                        and len(x.args) >= 2 and norm(x.args[0]) == "self.path" and norm(x.args[1]) == tgt:
+                    good.add(n.id)
+            if isinstance(n.ast, ast.Assign) and norm(n.ast.value) == "self.path" and any(norm(t) == tgt for t in n.ast.targets):
+                good.add(n.id)
+        wit = cfg.path(cfg.entry, cfg.node_of(st).id, skip=good, skip_edges=("exc",))
+        ctx.ob("R14.9", f"L{c.lineno}: {norm(c)[:80]} is preceded by a copy of the output file on every path", wit is None and bool(good),
+               detail={"copies": len(good), "path_without_copy": cfg.describe_path(wit)[-8:] if wit else None}, where=f.fq,
+               construct=f"export into {tgt} without the raw data", loc=loc(f, c),
+               message=f"`{norm(c)[:80]}` can be reached without `shutil.copy(self.path, {tgt})`: only the `solution` group is written into a "
+                       f"file that may already hold the frames of another run",
+               consequence="exporting a second solution onto a path that holds an earlier export keeps the first run's frames and dynamics: "
+                           "the loaded solution differs from the one saved, silently",
+               witness={"path": cfg.describe_path(wit)[-8:] if wit else None})
